@@ -313,6 +313,56 @@ def rule_s5(ctx, F):
                     name, show(r)[:60], fn.loc(pt)), {"site": fn.loc(pt)})
 
 
+def rule_s6(ctx, F):
+    """Extras carry no field: every reader of the field map hands out a field (name, id or child)
+    only for a child that is not an extra — the printer, both cursor readers and the node API agree."""
+    # (1) the S-expression writer: any non-null field name given to a child's frame
+    fn = ctx.need_fn(F, "ts_subtree__write_to_string", "S6")
+    if fn:
+        frames = [(pt, e) for pt, e in fn.points() if e.get("k") == "decl" and strip(e.get("init") or {}).get("k") == "init" and "WriteToStringFrame" in (strip(e["init"]).get("t") or "")]
+        srcs, child = [], None
+        for pt, e in frames:
+            flds = {f["f"]: strip(f["e"]) for f in strip(e["init"])["fields"]}
+            sub = flds.get("subtree")
+            if sub is None or sub.get("k") != "ref":
+                continue
+            child = sub["name"]
+            var = e["name"]
+            fnm = flds.get("field_name")
+            if fnm is not None and fnm.get("k") not in ("zero", "null") and not (fnm.get("k") == "int" and not fnm.get("v")):
+                srcs.append(pt)
+            for pt2, e2 in fn.points():
+                for n in own_walk(e2):
+                    if n.get("k") == "assign" and M(fn).match("%s.field_name" % var, n["l"]):
+                        r = strip(n["r"])
+                        if r.get("k") not in ("zero", "null") and not (r.get("k") == "int" and not r.get("v")):
+                            srcs.append(pt2)
+        if not child or not srcs:
+            ctx.bad("S6", "ts_subtree__write_to_string:child-frame-field", "the child frame of the S-expression writer (a WriteToStringFrame built from the child subtree, with a field name) was not found")
+        else:
+            ctx.gate("S6", fn, srcs, [("a child frame gets a field name only if the child is not an extra", "ts_subtree_extra(%s)" % child, False)], accept_desc="giving the child's frame a field name")
+    # (2) cursor readers
+    fn = ctx.need_fn(F, "ts_tree_cursor_current_field_id", "S6")
+    if fn:
+        acc = [pt for pt, e in fn.points() if e.get("k") == "ret" and strip(e["e"]).get("k") == "mem"]
+        ctx.gate("S6", fn, acc, [("a field id is returned only for a non-extra entry", "ts_subtree_extra(*entry->subtree)", False)], accept_desc="returning a field id")
+    fn = ctx.need_fn(F, "ts_tree_cursor_current_status", "S6")
+    if fn:
+        acc = [pt for pt, n in find(fn, "*field_id = map->field_id")]
+        ctx.gate("S6", fn, acc, [("a field id is recorded only for a non-extra entry", "ts_subtree_extra(*entry->subtree)", False)], accept_desc="recording a field id")
+    # (3) node API
+    for name in ("ts_node_field_name_for_child", "ts_node_field_name_for_named_child"):
+        fn = ctx.need_fn(F, name, "S6")
+        if fn:
+            acc = [pt for pt, e in fn.points() if e.get("k") == "ret" and strip(e["e"]).get("k") == "ref"]
+            ctx.gate("S6", fn, acc, [("a field name is returned only for a non-extra child", "ts_node_is_extra(child)", False)], accept_desc="returning a field name")
+    fn = ctx.need_fn(F, "ts_node_child_by_field_id", "S6")
+    if fn:
+        acc = [pt for pt, e in fn.points() if e.get("k") == "ret" and ("child" in show(e["e"]) or "result" in show(e["e"])) and "ts_node__null" not in show(e["e"])]
+        ctx.floor("field-selected returns in ts_node_child_by_field_id", len(acc), 3)
+        ctx.gate("S6", fn, acc, [("a child is selected by field only if it is not an extra", "ts_subtree_extra(ts_node__subtree(child))", False)], accept_desc="returning the field's child")
+
+
 def rule_s4(ctx, F):
     table = [
         ("ts_node__field_name_from_language", "field_map", "structural_child_index", lambda e: e.get("k") == "ret" and strip(e["e"]).get("k") != "null" and not (strip(e["e"]).get("k") == "int")),
@@ -341,6 +391,7 @@ def run(ctx):
         rule_s3b(ctx, F)
         rule_s4(ctx, F)
         rule_s5(ctx, F)
+        rule_s6(ctx, F)
     return ctx.finish(
         "Sibling-agreement (CFG isomorphism under substitution), field-coverage and index-width rules over node.c / tree_cursor.c: byte- and point-range "
         "descendant search are the same algorithm; child/named-child APIs share one implementation; child iterators read aliases and advance the structural "
